@@ -798,6 +798,22 @@ func (c GeneratorContext) addPushed(n int) GeneratorContext {
 	return c
 }
 
+// CatchPanic calls the given function and returns a panic that occurs in the function as
+// an error. It is used at all places where a panic could not be handled properly otherwise:
+// In a try expression, because the catch expression needs to handle all errors, and
+// if a closure is called, because closures are also called from goroutines created
+// by list operations, where a panic would terminate the whole process.
+func CatchPanic[V any](f ParserFunc[V], st Stack[V], cs []V) (v V, err error) {
+	defer func() {
+		if rec := recover(); rec != nil {
+			var zero V
+			v = zero
+			err = parser2.AnyToError(rec)
+		}
+	}()
+	return f(st, cs)
+}
+
 type Func[V any] func(Stack[V]) (V, error)
 
 func (f Func[V]) Eval(args ...V) (V, error) {
@@ -1008,7 +1024,7 @@ func (g *FunctionGenerator[V]) GenerateFunc(ast parser2.AST, gc GeneratorContext
 			return nil, false, err
 		}
 		return func(st Stack[V], cs []V) (V, error) {
-			v, err := tryFunc(st, cs)
+			v, err := CatchPanic(tryFunc, st, cs)
 			if err == nil {
 				return v, nil
 			}
@@ -1061,7 +1077,9 @@ func (g *FunctionGenerator[V]) GenerateFunc(ast parser2.AST, gc GeneratorContext
 			}
 			return func(st Stack[V], cs []V) (V, error) {
 				return g.closureHandler.FromClosure(Function[V]{
-					Func: closureFunc,
+					Func: func(st Stack[V], cs []V) (V, error) {
+						return CatchPanic(closureFunc, st, cs)
+					},
 					Args: len(a.Names),
 				}), nil
 			}, pure, nil
@@ -1302,7 +1320,7 @@ func (g *FunctionGenerator[V]) createClosureLiteralFunc(a *parser2.ClosureLitera
 		closureContext := make([]V, len(accessContextOperations))
 		closure := g.closureHandler.FromClosure(Function[V]{
 			Func: func(st Stack[V], cs []V) (V, error) {
-				return closureFunc(st, closureContext)
+				return CatchPanic(closureFunc, st, closureContext)
 			},
 			Args: len(a.Names),
 		})
